@@ -81,6 +81,17 @@ def run(tier):
     fams.append(('bursts', cfgA, 1, core.burst_scripts(seed + 5, 24)))
     pairs, meta = [], []
     plans = []
+    # Silence is detected "within the heartbeat bound" only with client monitoring on, and
+    # otherwise at the first send after the deadline: every script therefore ends with one send
+    # to each session after the clock has run past the bound.
+    for fi, (what, cfg, ns, scripts) in enumerate(fams):
+        tailed = []
+        for sc in scripts:
+            last_t = max([o['t'] for o in sc if o['op'] == 'tick'] + [0])
+            flush = cfg.get('ping_interval', 2) + 3 * cfg.get('ping_timeout', 1) + 2
+            tailed.append(list(sc) + [{'op': 'tick', 't': last_t + flush}] +
+                          [{'op': 'send', 's': k + 1} for k in range(ns)])
+        fams[fi] = (what, cfg, ns, tailed)
     for what, cfg, ns, scripts in fams:
         for impl in ('sync', 'async'):
             plans.append(dict(what=what, impl=impl, cfg=cfg, nslots=ns, scripts=scripts))
